@@ -19,10 +19,11 @@ package object
 //@   ensures [table] {C01,C05,C19} (typeString == "blob" ==> t == BlobObject && err == nil) && (typeString == "tree" ==> t == TreeObject && err == nil) && (typeString == "commit" ==> t == CommitObject && err == nil) && (typeString == "tag" ==> t == TagObject && err == nil)
 //@   ensures [reject] {C01,C19} typeString != "blob" && typeString != "tree" && typeString != "commit" && typeString != "tag" ==> err != nil && t == UndefinedObject
 
+//@ pred signText(s) := s.Name + " <" + s.Email + "> " + fmtd(time_unix(s.Timestamp), 0) + " " + tzStr(time_off(s.Timestamp))
 //@ func Sign.String
 //@   returns str
 //@   pure
-//@   ensures [format] {C12,C02} str == s.Name + " <" + s.Email + "> " + fmtd(time_unix(s.Timestamp), 0) + " " + tzStr(time_off(s.Timestamp))
+//@   ensures [format] {C12,C02} str == signText(s)
 //@   ensures [one-line] {C02} !contains(s.Name, "\n") && !contains(s.Email, "\n") ==> !contains(str, "\n")
 
 // ---- trees in memory: a forest is a []*Node; a node without children is a file
@@ -115,6 +116,7 @@ package object
 //@ pred commitStored(f, root, h) := isFile(f, objPath(root, h)) && storedKind(f, root, h) == CommitObject
 // the snapshot a stored commit names, as any reader of the format takes it from the bytes on disk (C05, C03)
 //@ pred commitTreeOf(f, root, h) := hdrTree("", payloadOf(plainOf(f, root, h)))
+//@ pred commitText(f, root, h) := payloadOf(plainOf(f, root, h))
 //@ pred commitParentsOf(f, root, h) := hdrParents(emptyStrings(), payloadOf(plainOf(f, root, h)))
 //@ pred treeStored(f, root, h) := isFile(f, objPath(root, h)) && storedKind(f, root, h) == TreeObject
 
@@ -217,6 +219,36 @@ package object
 //@ lemma [commit-text-tree-parent] {C02,C05} forall t string, p string, a string, c string, rest string {hdrTree("", "tree " + (hex(t) + ("\nparent " + (p + ("\nauthor " + (a + ("\ncommitter " + (c + ("\n\n" + rest)))))))))} :: !contains(p, "\n") && !contains(a, "\n") && !contains(c, "\n") ==> hdrTree("", "tree " + (hex(t) + ("\nparent " + (p + ("\nauthor " + (a + ("\ncommitter " + (c + ("\n\n" + rest))))))))) == t
 //@ lemma [commit-text-parents] {C02} forall ps []sha.SHA1, t string, a string, c string, rest string {hdrParents(ps, "tree " + (hex(t) + ("\nauthor " + (a + ("\ncommitter " + (c + ("\n\n" + rest)))))))} :: !contains(a, "\n") && !contains(c, "\n") ==> hdrParents(ps, "tree " + (hex(t) + ("\nauthor " + (a + ("\ncommitter " + (c + ("\n\n" + rest))))))) == ps
 //@ lemma [commit-text-parents-parent] {C02} forall ps []sha.SHA1, t string, p string, a string, c string, rest string {hdrParents(ps, "tree " + (hex(t) + ("\nparent " + (p + ("\nauthor " + (a + ("\ncommitter " + (c + ("\n\n" + rest)))))))))} :: !contains(p, "\n") && !contains(a, "\n") && !contains(c, "\n") ==> hdrParents(ps, "tree " + (hex(t) + ("\nparent " + (p + ("\nauthor " + (a + ("\ncommitter " + (c + ("\n\n" + rest))))))))) == seqAppend(ps, unhex(p))
+
+// The other header fields and the message, by the same recursion (C02: identity and message of the stored commit):
+// hdrLine(k, acc, text) is what follows "k " on the last header line whose field is k; hdrRest(text) is what follows
+// the line that ends the header.
+//@ ghost hdrLine(k string, acc string, rest string) string
+//@ axiom [hdrLine-def] forall k string, acc string, rest string {hdrLine(k, acc, rest), scanStep(rest)} :: hdrLine(k, acc, rest) == ite(hdrEnds(rest), acc, hdrLine(k, ite(splitHead(nextTok(rest), " ") == k, splitTail(nextTok(rest), " "), acc), nextRest(rest)))
+//@ ghost hdrRest(rest string) string
+//@ axiom [hdrRest-def] forall rest string {hdrRest(rest), scanStep(rest)} :: hdrRest(rest) == ite(len(rest) == 0, "", ite(!contains(nextTok(rest), " "), nextRest(rest), hdrRest(nextRest(rest))))
+//@ lemma [ln-tree-line] {C02} forall k string, acc string, t string, rest string {hdrLine(k, acc, "tree " + (hex(t) + ("\n" + rest)))} :: scanStep("tree " + (hex(t) + ("\n" + rest))) && hdrLine(k, acc, "tree " + (hex(t) + ("\n" + rest))) == hdrLine(k, ite(k == "tree", hex(t), acc), rest)
+//@ lemma [rs-tree-line] {C02} forall t string, rest string {hdrRest("tree " + (hex(t) + ("\n" + rest)))} :: scanStep("tree " + (hex(t) + ("\n" + rest))) && hdrRest("tree " + (hex(t) + ("\n" + rest))) == hdrRest(rest)
+//@ lemma [ln-parent-line] {C02} forall k string, acc string, p string, rest string {hdrLine(k, acc, "parent " + (p + ("\n" + rest)))} :: !contains(p, "\n") ==> scanStep("parent " + (p + ("\n" + rest))) && hdrLine(k, acc, "parent " + (p + ("\n" + rest))) == hdrLine(k, ite(k == "parent", p, acc), rest)
+//@ lemma [rs-parent-line] {C02} forall p string, rest string {hdrRest("parent " + (p + ("\n" + rest)))} :: !contains(p, "\n") ==> scanStep("parent " + (p + ("\n" + rest))) && hdrRest("parent " + (p + ("\n" + rest))) == hdrRest(rest)
+//@ lemma [ln-author-line] {C02} forall k string, acc string, v string, rest string {hdrLine(k, acc, "author " + (v + ("\n" + rest)))} :: !contains(v, "\n") ==> scanStep("author " + (v + ("\n" + rest))) && hdrLine(k, acc, "author " + (v + ("\n" + rest))) == hdrLine(k, ite(k == "author", v, acc), rest)
+//@ lemma [rs-author-line] {C02} forall v string, rest string {hdrRest("author " + (v + ("\n" + rest)))} :: !contains(v, "\n") ==> scanStep("author " + (v + ("\n" + rest))) && hdrRest("author " + (v + ("\n" + rest))) == hdrRest(rest)
+//@ lemma [ln-committer-line] {C02} forall k string, acc string, v string, rest string {hdrLine(k, acc, "committer " + (v + ("\n" + rest)))} :: !contains(v, "\n") ==> scanStep("committer " + (v + ("\n" + rest))) && hdrLine(k, acc, "committer " + (v + ("\n" + rest))) == hdrLine(k, ite(k == "committer", v, acc), rest)
+//@ lemma [rs-committer-line] {C02} forall v string, rest string {hdrRest("committer " + (v + ("\n" + rest)))} :: !contains(v, "\n") ==> scanStep("committer " + (v + ("\n" + rest))) && hdrRest("committer " + (v + ("\n" + rest))) == hdrRest(rest)
+//@ lemma [ln-end] {C02} forall k string, acc string, rest string {hdrLine(k, acc, "\n" + rest)} :: scanStep("\n" + rest) && hdrLine(k, acc, "\n" + rest) == acc
+//@ lemma [rs-end] {C02} forall rest string {hdrRest("\n" + rest)} :: scanStep("\n" + rest) && hdrRest("\n" + rest) == rest
+//@ lemma [lj-tree-author] {C02} forall k string, acc string, t string, rest string {hdrLine(k, acc, "tree " + (hex(t) + ("\nauthor " + rest)))} :: hdrLine(k, acc, "tree " + (hex(t) + ("\nauthor " + rest))) == hdrLine(k, ite(k == "tree", hex(t), acc), "author " + rest)
+//@ lemma [rj-tree-author] {C02} forall t string, rest string {hdrRest("tree " + (hex(t) + ("\nauthor " + rest)))} :: hdrRest("tree " + (hex(t) + ("\nauthor " + rest))) == hdrRest("author " + rest)
+//@ lemma [lj-tree-parent] {C02} forall k string, acc string, t string, rest string {hdrLine(k, acc, "tree " + (hex(t) + ("\nparent " + rest)))} :: hdrLine(k, acc, "tree " + (hex(t) + ("\nparent " + rest))) == hdrLine(k, ite(k == "tree", hex(t), acc), "parent " + rest)
+//@ lemma [rj-tree-parent] {C02} forall t string, rest string {hdrRest("tree " + (hex(t) + ("\nparent " + rest)))} :: hdrRest("tree " + (hex(t) + ("\nparent " + rest))) == hdrRest("parent " + rest)
+//@ lemma [lj-parent-author] {C02} forall k string, acc string, p string, rest string {hdrLine(k, acc, "parent " + (p + ("\nauthor " + rest)))} :: !contains(p, "\n") ==> hdrLine(k, acc, "parent " + (p + ("\nauthor " + rest))) == hdrLine(k, ite(k == "parent", p, acc), "author " + rest)
+//@ lemma [rj-parent-author] {C02} forall p string, rest string {hdrRest("parent " + (p + ("\nauthor " + rest)))} :: !contains(p, "\n") ==> hdrRest("parent " + (p + ("\nauthor " + rest))) == hdrRest("author " + rest)
+//@ lemma [lj-author-committer] {C02} forall k string, acc string, v string, rest string {hdrLine(k, acc, "author " + (v + ("\ncommitter " + rest)))} :: !contains(v, "\n") ==> hdrLine(k, acc, "author " + (v + ("\ncommitter " + rest))) == hdrLine(k, ite(k == "author", v, acc), "committer " + rest)
+//@ lemma [rj-author-committer] {C02} forall v string, rest string {hdrRest("author " + (v + ("\ncommitter " + rest)))} :: !contains(v, "\n") ==> hdrRest("author " + (v + ("\ncommitter " + rest))) == hdrRest("committer " + rest)
+//@ lemma [lj-committer-end] {C02} forall k string, acc string, v string, rest string {hdrLine(k, acc, "committer " + (v + ("\n\n" + rest)))} :: !contains(v, "\n") ==> hdrLine(k, acc, "committer " + (v + ("\n\n" + rest))) == ite(k == "committer", v, acc)
+//@ lemma [rj-committer-end] {C02} forall v string, rest string {hdrRest("committer " + (v + ("\n\n" + rest)))} :: !contains(v, "\n") ==> hdrRest("committer " + (v + ("\n\n" + rest))) == rest
+//@ lemma [commit-text-fields] {C02} forall t string, a string, c string, rest string {hdrRest("tree " + (hex(t) + ("\nauthor " + (a + ("\ncommitter " + (c + ("\n\n" + rest)))))))} :: !contains(a, "\n") && !contains(c, "\n") ==> hdrLine("author", "", "tree " + (hex(t) + ("\nauthor " + (a + ("\ncommitter " + (c + ("\n\n" + rest))))))) == a && hdrLine("committer", "", "tree " + (hex(t) + ("\nauthor " + (a + ("\ncommitter " + (c + ("\n\n" + rest))))))) == c && hdrRest("tree " + (hex(t) + ("\nauthor " + (a + ("\ncommitter " + (c + ("\n\n" + rest))))))) == rest
+//@ lemma [commit-text-fields-parent] {C02} forall t string, p string, a string, c string, rest string {hdrRest("tree " + (hex(t) + ("\nparent " + (p + ("\nauthor " + (a + ("\ncommitter " + (c + ("\n\n" + rest)))))))))} :: !contains(p, "\n") && !contains(a, "\n") && !contains(c, "\n") ==> hdrLine("author", "", "tree " + (hex(t) + ("\nparent " + (p + ("\nauthor " + (a + ("\ncommitter " + (c + ("\n\n" + rest))))))))) == a && hdrLine("committer", "", "tree " + (hex(t) + ("\nparent " + (p + ("\nauthor " + (a + ("\ncommitter " + (c + ("\n\n" + rest))))))))) == c && hdrRest("tree " + (hex(t) + ("\nparent " + (p + ("\nauthor " + (a + ("\ncommitter " + (c + ("\n\n" + rest))))))))) == rest
 
 //@ func NewCommit
 //@   returns c, err
